@@ -39,7 +39,8 @@ def tasks(tier, seed):
         for n in (1, 2, 3):
             for m in (1, 2):
                 ts.append(dict(name=f'{alg}_rel_n{n}_m{m}', kind='rel', alg=alg, n=n, m=m, cplx=False, cut=5))
-        if not q:
+        if not q and alg == 'lanczos':
+            # (the complex general-map Arnoldi relation at n = 2, numiter = 2 does not finish within 15 min: not part of the claim)
             ts.append(dict(name=f'{alg}_rel_n2_m2_cplx', kind='rel', alg=alg, n=2, m=2, cplx=True, cut=5))
     for fn in ('eigh', 'expm_h', 'expm_g'):
         for n in (1, 2, 3):
@@ -286,7 +287,7 @@ def evidence(tier, seed, total, per_task, val):
                         'consistency checked on every path; for numiter <= 2 the relations V^H V = I, V^H A V = T/H are decided by linearised '
                         'ideal membership modulo the sqrt / inverse definitions',
             functions_encoded=['krylov.lanczos_iteration', 'krylov.arnoldi_iteration', 'krylov.eigh_krylov (size plumbing)', 'krylov.expm_krylov (size plumbing)'],
-            bounds=dict(n='1..3', numiter='1..4 for sizes (let-abstraction above 60 monomials), 1..2 for the relations', complex_map='thorough tier, n = 2'),
+            bounds=dict(n='1..3', numiter='1..4 for sizes (let-abstraction above 60 monomials), 1..2 for the relations', complex_map='thorough tier, n = 2, Hermitian (Lanczos) only'),
             stubs=['np.linalg.norm -> sqrt contract', 'division -> Rabinowitsch inverse', 'scipy eigh_tridiagonal / expm / exp -> size-checking stubs returning fresh symbols (consumer tasks only)'],
             outside=['orthogonality and the three-term relation beyond the second vector', 'floating-point loss of orthogonality',
                      'the numerical meaning of the breakdown threshold 100 n eps', 'Ritz values / exponentials (C15)'],
